@@ -153,6 +153,10 @@ func (c Int64) Log1pExp(a ConstScalar) Scalar {
     c.Log1p(c)
   } else
   if v <= 33.3 {
+    if ConstScalar(c) == a {
+      // a is needed after c has been written
+      a = a.CloneConstScalar()
+    }
     c.Neg(a)
     c.Exp(c)
     c.Add(c, a)
